@@ -173,13 +173,14 @@ Definition real_wait (speculating : bool) (w : world) (k : var) : option (value 
             end
   end.
 
-(* `for key in not_ready_keys: if not key.is_awaiting: key.wait()` at depth 0 *)
-Fixpoint wait_all (w : world) (ks : list var) : world * bool :=
+(* `for key in not_ready_keys: if not key.is_awaiting and key in self.coeffs: key.wait()` at depth 0
+   (a variable that has cancelled out in the meantime is not needed at all) *)
+Fixpoint wait_all (w : world) (cur : list var) (ks : list var) : world * bool :=
   match ks with
   | [] => (w, true)
-  | k :: r => if memv k (awaiting w) then wait_all w r
+  | k :: r => if memv k (awaiting w) || negb (memv k cur) then wait_all w cur r
               else match real_wait false w k with
-                   | Some (_, w') => wait_all w' r
+                   | Some (_, w') => wait_all w' cur r
                    | None => (w, false)      (* it raises; what was settled before stays settled *)
                    end
   end.
@@ -191,12 +192,13 @@ Fixpoint list_eqbv (a b : list var) : bool :=
   | _, _ => false
   end.
 
-(* the `while not_ready_keys` loop: (polynomial, world, raised) *)
+(* the `while not_ready_keys and rounds < 100` loop (fuel = 100 rounds, then it falls through to the
+   evaluation that reports the cycle): (polynomial, world, raised) *)
 Fixpoint settle_loop (fuel : nat) (w : world) (p : poly) (nr : list var) : poly * world * bool :=
   match fuel with
   | O => (p, w, false)
   | S f =>
-      let '(w', ok) := wait_all w nr in
+      let '(w', ok) := wait_all w (vars p) nr in
       if negb ok then (p, w', true) else
       let '(p', nr') := substitute w' p in
       if list_eqbv nr' nr then (p', w', false) else
